@@ -94,6 +94,9 @@ type violationOut struct {
 	Scenario    json.RawMessage `json:"scenario"`
 	ShrunkFrom  int             `json:"shrunk_from_bytes"`
 	ShrinkExecs int             `json:"shrink_execs"`
+	// FreeRunning: found by a free-running (engine B) run; which oracle trips first may depend on the fine
+	// interleaving, so the fresh-process replay confirms "this scenario violates the property", not the oracle id
+	FreeRunning bool `json:"free_running"`
 }
 
 type replayFile struct {
@@ -211,12 +214,25 @@ func runWorker(t *testing.T) {
 			sum.Nontrivial++
 			distinct[o.Distinct] = true
 		}
-		if i-i0 < hashSeeds {
+		free := p.EngineB || o.FreeRunning
+		if i-i0 < hashSeeds && !(free && o.Fail != nil) {
 			sum.SeedHashes[fmt.Sprint(seed)] = fmt.Sprintf("%016x", o.LogHash)
 		}
 		if i-i0 < selfSeeds {
 			o2 := p.Exec(t, cloneScenario(p, sc), false)
-			if o2.LogHash != o.LogHash {
+			switch {
+			case o2.LogHash == o.LogHash:
+			case free && (o.Fail != nil || o2.Fail != nil):
+				// Free-running engine: the event log of a run in which the code under test violates an oracle
+				// (e.g. a data race delivering entries under wrong indices) legitimately depends on the fine
+				// interleaving. The failure itself is what gets reported, after confirmation by fresh-process
+				// replay; it is not a determinism defect of the harness.
+				sum.Counters["selfcheck.mismatch_with_failure"]++
+				delete(sum.SeedHashes, fmt.Sprint(seed))
+				if o.Fail == nil {
+					o = o2
+				}
+			default:
 				sum.SelfMismatch = append(sum.SelfMismatch, fmt.Sprint(seed))
 			}
 		}
@@ -260,7 +276,7 @@ func runWorker(t *testing.T) {
 func handleFailure(t *testing.T, p *Prop, sc any, o *Outcome, seed uint64, dir string) violationOut {
 	orig, _ := json.Marshal(sc)
 	best := cloneScenario(p, sc)
-	v := violationOut{Oracle: o.Fail.Oracle, Msg: o.Fail.Msg, Sig: o.Fail.Sig, Seed: seed, ShrunkFrom: len(orig)}
+	v := violationOut{Oracle: o.Fail.Oracle, Msg: o.Fail.Msg, Sig: o.Fail.Sig, Seed: seed, ShrunkFrom: len(orig), FreeRunning: o.FreeRunning || p.EngineB}
 	if strings.HasSuffix(o.Fail.Oracle, ".race") || o.FreeRunning {
 		// The race detector reports a given race once per process, so a race cannot be confirmed or
 		// minimised by re-executing here: the replay file is written as is and the driver confirms it
@@ -359,10 +375,17 @@ func replay(t *testing.T, p *Prop, path string) {
 	if strings.HasSuffix(rf.Oracle, ".race") || o.FreeRunning || p.EngineB {
 		// A race report depends on which of the schedules admitted by the coarse (simulated-time)
 		// schedule the OS threads take: repeat the scenario until the detector reports the pair again.
+		var other *Outcome // a repetition that failed another oracle of the property
 		for i := 0; i < 40 && (o.Fail == nil || o.Fail.Oracle != rf.Oracle); i++ {
+			if o.Fail != nil && other == nil {
+				other = o
+			}
 			sc2 := p.New()
 			json.Unmarshal(rf.Scenario, sc2)
 			o = p.Exec(t, sc2, false)
+		}
+		if (o.Fail == nil || o.Fail.Oracle != rf.Oracle) && other != nil {
+			o = other
 		}
 	}
 	for _, l := range o.LogLines {
